@@ -482,9 +482,9 @@ pub fn run_case(plan: &CasePlan, seed: u64, idx: u64, fixed_ops: Option<Vec<Op>>
     // work that never quiesces): report the panic itself, so that it is classified like in deterministic mode
     let worker_panics: Vec<String> = crate::WORKER_PANICS.lock().map(|mut g| std::mem::take(&mut *g)).unwrap_or_default();
     let dev = match dev {
-        Some(d) if !worker_panics.is_empty() && (d.detail.contains("Poisoned") || d.sig.starts_with("inconclusive")) => {
-            Some(Deviation::new("panic", worker_panics[0].clone()))
-        }
+        // (the first worker panic is the root cause of whatever was observed afterwards: `Poisoned` errors,
+        // background work that never quiesces, or a poisoned lsm-tree lock that makes the client panic)
+        Some(d) if !worker_panics.is_empty() && !d.sig.starts_with("known:") => Some(Deviation::new("panic", worker_panics[0].clone())),
         other => other,
     };
     // make sure nothing keeps the directory busy
